@@ -57,6 +57,12 @@ var spinWraps = []struct{ name, tmpl string }{
 	{"deferred-after-return", "func w() {\ndefer func() {\n%s\n}()\nreturn 1\n}\nprobe(w())"},
 	{"deferred-after-return-tail", "func w(v) {\ndefer func() {\n%s\n}()\nreturn v * 2\n}\nw(21)"},
 	{"deferred-named-after-return", "func spin() {\n%s\n}\nfunc w() {\ndefer spin()\nreturn 1\n}\nx = w()"},
+	// the core twice: where the cancellation lands, and again in the clean-up that runs afterwards (deferred call, finally, catch)
+	{"twice-body-and-deferred", "func w() {\ndefer func() {\n%[1]s\n}()\n%[1]s\n}\nw()"},
+	{"twice-top-level-defer", "defer func() {\n%[1]s\n}()\n%[1]s"},
+	{"twice-try-and-finally", "try {\n%[1]s\n} catch e {\n} finally {\n%[1]s\n}"},
+	{"twice-try-in-func-catch-finally", "func w() {\n%[1]s\n}\ntry {\nw()\n} catch e {\n%[1]s\n} finally {\n%[1]s\n}"},
+	{"twice-nested-finally", "func g() {\ntry {\ntry {\n%[1]s\n} catch e1 {\n} finally {\nprobe(\"inner\")\n}\n} catch e2 {\n} finally {\n%[1]s\n}\n}\ng()"},
 }
 
 // cores outside F0 (channels) and the callback wrapper: wall-clock oracle only
@@ -157,11 +163,16 @@ func streamCancel(o *Out, r *rand.Rand, n int, thorough bool) {
 	o.Sum.Rule = "poll-exact cancellation: programs (random F0 programs and spinning cores x 17 wrappers) run under a context that cancels at poll k, for k over " +
 		"{0,1,2, mid, last-1, last} (quick) / every k up to 60 (thorough), model run with the same cancelAt; wall-clock oracle: spinning and blocking cores (incl. channels, callbacks) " +
 		"x wrappers cancelled after 30 ms through context.WithCancel in a child process; non-trivial = all; distinct by request hash"
+	spinIdx := 0 // the fixed cases are noted with negative indices (the random programs use theirs)
 	runK := func(src string, k int, tag string) (vmResult, bool) {
 		stmt, err := parser.ParseSrc(src)
 		if err != nil {
 			o.Fail(Failure{Oracle: "cancel-template-parses", Key: "cancel-template-parse", Input: src, Detail: err.Error()})
 			return vmResult{}, false
+		}
+		if tag == "spin" {
+			spinIdx--
+			o.Current(spinIdx, fmt.Sprintf("[cancel at poll %d] %s", k, src))
 		}
 		res := runVM(stmt, k, 4*time.Second)
 		kk := "_"
@@ -265,7 +276,7 @@ func streamCancel(o *Out, r *rand.Rand, n int, thorough bool) {
 		// quick: a rotating third of the wall-clock cases
 		var sel []wc
 		for i, c := range wcs {
-			if i%3 == int(o.Sum.Seed%3) || c.name == "callback" || c.name == "nilco-left" || strings.Contains(c.name, "tail") || strings.Contains(c.name, "after-return") {
+			if i%3 == int(o.Sum.Seed%3) || c.name == "callback" || c.name == "nilco-left" || strings.Contains(c.name, "tail") || strings.Contains(c.name, "after-return") || strings.HasPrefix(c.name, "twice") {
 				sel = append(sel, c)
 			}
 		}
